@@ -39,4 +39,19 @@ struct BtcChainParams {
   uint256 getPowLimit() const { return limit_; }
 };
 #include "slices/checkProofOfWork_btc.inc"
+typedef Blob<24> uint192;
+struct VbkBlock {
+  uint192 hash_;
+  int32_t bits_;
+  uint192 getHash() const { return hash_; }
+  int32_t getDifficulty() const { return bits_; }
+};
+struct VbkChainParams {
+  uint256 mindiff_;
+  uint256 getMinimumDifficulty() const { return mindiff_; }
+};
+} extern "C" { extern uint8_t g_quot[32]; extern uint8_t g_max[32]; } namespace altintegration {
+inline ArithUint256 vstd_vbk_max_difficulty() { ArithUint256 r; for (int i = 0; i < 32; i++) r.data_[i] = g_max[i]; return r; }
+inline ArithUint256 vstd_div_abstract(const ArithUint256&, const ArithUint256&) { ArithUint256 r; for (int i = 0; i < 32; i++) r.data_[i] = g_quot[i]; return r; }
+#include "slices/checkProofOfWork_vbk.inc"
 }
